@@ -13,7 +13,8 @@ EXTENDS KvRegion, Json
 CONSTANTS Depth,        \* 1 or 2
           Reduced,      \* TRUE: reduced atom pool (used for depth 2)
           EmitCases,    \* TRUE: print case lines
-          WithEmptyLit  \* TRUE: the empty literal '' is in the pool
+          WithEmptyLit, \* TRUE: the empty literal '' is in the pool
+          Edge          \* TRUE: the small edge pool only (literals '' and 'a')
 
 \* literal letters 'a','b'; key letters 'A' < 'a' < 'b' < 'c'
 LitAlpha == {97, 98}
@@ -45,7 +46,10 @@ CmpAtoms(LS) == { ABin(op, AKey, AStr(l)) : op \in {"=", "^=", ">", ">=", "<", "
 \* constant comparisons: the expression optimizer folds them to true / false before planning
 CFalse == ABin("=", AStr(<<97>>), AStr(<<98>>))
 CTrue  == ABin("=", AStr(<<97>>), AStr(<<97>>))
-Atoms == IF Reduced
+\* the edge pool: the empty literal and one letter - nil / empty-string confusions live here
+ELits == {<<>>, <<97>>}
+EdgeAtoms == CmpAtoms(ELits) \cup { AIn(AKey, <<AStr(<<>>), AStr(<<97>>)>>), ABetween(AKey, AStr(<<>>), AStr(<<97>>)), Opq }
+Atoms == IF Edge THEN EdgeAtoms ELSE IF Reduced
          THEN CmpAtoms(RLits) \cup { AIn(AKey, <<AStr(<<97>>), AStr(<<98>>)>>), ABetween(AKey, AStr(<<97>>), AStr(<<98>>)),
                                     Opq, CFalse }
          ELSE CmpAtoms(Lits)
